@@ -191,6 +191,10 @@ type HarnessResult struct {
 var concreteTape []TapeEntry
 var stopFirst = os.Getenv("GOSYM_SELFTEST") != ""
 
+// failStop ends the exploration of an instance after that many failed
+// assertion checks that are not in a known-finding class (0 = never).
+var failStop = envInt("GOSYM_FAILSTOP", 30)
+
 func (w *World) newInterp(ex *Explorer, pkg *ssa.Package) *Interp {
 	in := NewInterp(w.prog, ex)
 	in.harnessPkg = pkg
@@ -342,6 +346,13 @@ func runHarness(w *World, solver *Solver, pkgName, harness string, params map[st
 		}
 		if stopFirst && len(ex.Failures) > 0 {
 			// self-test mode: one witness per instance is enough
+			break
+		}
+		if failStop > 0 && ex.FailHits >= failStop {
+			// the instance is red already; a broken tree often turns
+			// payload into structure and multiplies paths, so do not
+			// spend the budget on more witnesses of the same failure
+			ex.Samples = append(ex.Samples, fmt.Sprintf("stopped after %d failed assertion checks (instance is red; exploration not completed)", ex.FailHits))
 			break
 		}
 		if maxPaths > 0 && ex.Paths >= maxPaths {
